@@ -53,8 +53,8 @@ COMPONENTS = {
     "model": ["afqmcsim.models.fock (second quantisation)", "afqmcsim.models.phaseless.StepModel"],
     "stub": [],
 }
-REQUIRED_PROBES = {"quick": ["steps_compared", "nodes_batches", "ladder_runs", "ladder_asymptotic", "model_validated", "walker_killed_by_phase", "fault_steps"],
-                   "thorough": ["steps_compared", "nodes_batches", "ladder_runs", "ladder_asymptotic", "model_validated", "walker_killed_by_phase", "walker_killed_by_window", "fault_steps", "skipped_at_threshold"]}
+REQUIRED_PROBES = {"quick": ["sampler_runs", "sampler_sr_changed_population", "steps_compared", "nodes_batches", "ladder_runs", "ladder_asymptotic", "model_validated", "walker_killed_by_phase", "fault_steps"],
+                   "thorough": ["sampler_runs", "sampler_sr_changed_population", "steps_compared", "nodes_batches", "ladder_runs", "ladder_asymptotic", "model_validated", "walker_killed_by_phase", "walker_killed_by_window", "fault_steps", "skipped_at_threshold"]}
 
 
 def menu_entry(k):
@@ -65,7 +65,8 @@ def menu_entry(k):
     else:
         trial, nelec = r.choice(["uhf", "ghf", "noci"]), r.choice([[2, 1], [2, 2], [1, 1], [3, 1]])
     return dict(wt=wt, trial=trial, nelec=nelec, norb=4, nchol=r.choice([1, 2, 3]), dt=STEP_DTS[k % 4], n_exp_terms=r.choice([4, 6]),
-                n_walkers=r.choice([4, 6]), n_batch=r.choice([1, 2]), kind="ladder" if k % 6 == 5 else "history")
+                n_walkers=r.choice([4, 6]), n_batch=r.choice([1, 2]), kind="ladder" if k % 6 == 5 else ("sampler" if k % 6 == 2 else "history"),
+                n_prop_steps=r.choice([1, 2, 3]), n_ene_blocks=r.choice([1, 2]), n_sr_blocks=r.choice([2, 3]))
 
 
 def gen_cfg(seed, index, tier):
@@ -79,6 +80,8 @@ def gen_cfg(seed, index, tier):
     m["rdm1_kind"] = rng.choice(["own", "arbitrary"])
     m["jax_seed"] = rng.randrange(1, 2**20)
     m["walker_noise"] = rng.choice([0.05, 0.2, 0.5])
+    # the free-projection reference energy is a legal entry of ham_data; a phaseless step must not depend on it
+    m["ene0"] = rng.choice([0.0, 0.0, 0.9, -1.3])
     nw = m["n_walkers"]
     if m["kind"] == "history":
         ops = []
@@ -93,8 +96,10 @@ def gen_cfg(seed, index, tier):
             else:
                 ops.append([o])
         m["ops"] = ops
-    else:
+    elif m["kind"] == "ladder":
         m["e_shift_offset"] = rng.choice([0.0, 0.3, -0.5])
+    else:
+        m["weight_spread"] = rng.choice([0.0, 1.0, 2.5])
     return m
 
 
@@ -113,12 +118,14 @@ def build(cfg, dt=None):
     spec["dt"] = cfg["dt"] if dt is None else dt
     s = lab.build_system(spec, harness=False)
     rs = np.random.RandomState((cfg["ham_seed"] + 77) % (2**32 - 1))
+    s.ham_data_raw = dict(s.ham_data_raw)
+    s.ham_data_raw["ene0"] = cfg.get("ene0", 0.0)
     if cfg["rdm1_kind"] == "arbitrary":
         r0 = np.asarray(s.wave_data["rdm1"])
         s.wave_data = dict(s.wave_data)
         s.wave_data["rdm1"] = jnp.array(r0 + np.array([lab.rand_sym(rs, cfg["norb"], 0.3), lab.rand_sym(rs, cfg["norb"], 0.3)]))
-        hd = s.ham.build_measurement_intermediates(dict(s.ham_data_raw), s.trial, s.wave_data)
-        s.ham_data = s.ham.build_propagation_intermediates(hd, s.plain, s.trial, s.wave_data)
+    hd = s.ham.build_measurement_intermediates(dict(s.ham_data_raw), s.trial, s.wave_data)
+    s.ham_data = s.ham.build_propagation_intermediates(hd, s.plain, s.trial, s.wave_data)
     return s, rs
 
 
@@ -267,7 +274,128 @@ def validate_model(ctx, cfg, s, up, dn, e_shift):
 def execute(cfg, ctx):
     if cfg["kind"] == "ladder":
         return _exec_ladder(cfg, ctx)
+    if cfg["kind"] == "sampler":
+        return _exec_sampler(cfg, ctx)
     return _exec_history(cfg, ctx)
+
+
+def _exec_sampler(cfg, ctx):
+    """The steps as the sampler composes them: one real sampler.propagate_phaseless call
+    (n_sr_blocks x n_ene_blocks x n_prop_steps steps, QR, measurement, local reconfigurations)
+    against the composition of MODEL steps driven by the same jax.random stream, in which
+    every step divides by the true overlap of the walker it propagates.  The measurement is
+    the model's exact mixed estimator, the reconfiguration the serial reference comb."""
+    import jax.numpy as jnp
+    from jax import random as jr
+
+    from ad_afqmc import sampling
+
+    from ..models import comb
+
+    s, rs = build(cfg)
+    m = make_model(cfg, s)
+    restricted = cfg["wt"] == "restricted"
+    nw, G, dt = cfg["n_walkers"], cfg["nchol"], cfg["dt"]
+    walkers = start_walkers(cfg, s, rs)
+    pd = s.plain.init_prop_data(s.trial, s.wave_data, dict(s.ham_data), walkers)
+    ov = np.asarray(pd["overlaps"])
+    if not (np.all(np.isfinite(np.abs(ov))) and np.min(np.abs(ov)) > 1e-4):
+        ctx.count("precondition_start_overlap")
+        return {"digest": None, "nontrivial": False}
+    w0 = np.exp(cfg["weight_spread"] * (rs.uniform(size=nw) - 0.5))
+    pd["weights"] = jnp.array(w0)
+    pd["key"] = jr.PRNGKey(cfg["jax_seed"])
+    smp = sampling.sampler(cfg["n_prop_steps"], cfg["n_ene_blocks"], cfg["n_sr_blocks"], 1)
+    site = "sampler.propagate_phaseless (composition of phaseless steps)"
+    e_code, pd_code = smp.propagate_phaseless(s.ham, dict(s.ham_data), s.plain, lab.copy_pd(pd), s.trial, s.wave_data)
+    # ---- model side ---------------------------------------------------------------------
+    nu, nd = cfg["nelec"]
+    W = [np.asarray(pd["walkers"])[i] for i in range(nw)] if restricted else [(np.asarray(pd["walkers"][0])[i], np.asarray(pd["walkers"][1])[i]) for i in range(nw)]
+
+    def ud(w):
+        return (w[:, :nu], w[:, :nd]) if restricted else w
+
+    wts = w0.copy()
+    e_est = float(np.asarray(pd["e_estimate"]))
+    shift = e_est
+    key = pd["key"]
+    cap = math.sqrt(2.0 / dt)
+    be_l, bw_l = [], []
+    near = False
+    changed = 0
+    for _ in range(cfg["n_sr_blocks"]):
+        for _ in range(cfg["n_ene_blocks"]):
+            key, sub = jr.split(key)
+            fields = np.asarray(jr.normal(sub, shape=(cfg["n_prop_steps"], nw, G)))
+            for st in range(cfg["n_prop_steps"]):
+                for i in range(nw):
+                    u, d = ud(W[i])
+                    r = m.phaseless_step(u, d, fields[st, i], shift)
+                    if wts[i] > 0 and m.near_threshold(r["pre"], wts[i]):
+                        near = True
+                    if restricted:
+                        T, _ = m.taylor(fields[st, i] - r["xbar"])
+                        W[i] = m.exp_h1[0] @ (T @ (m.exp_h1[0] @ W[i]))
+                    else:
+                        W[i] = (r["up"], r["dn"])
+                    wn = r["factor"] * wts[i]
+                    wts[i] = 0.0 if (wn > 100.0 or not np.isfinite(wn)) else wn
+                tot = float(np.sum(wts))
+                shift = e_est - 0.1 * math.log(tot / nw) / dt if tot > 0 else float("inf")
+            # re-orthonormalisation, measurement with the exact mixed estimator, shift mixing
+            el = np.zeros(nw)
+            for i in range(nw):
+                if restricted:
+                    W[i] = np.linalg.qr(W[i])[0]
+                else:
+                    W[i] = (np.linalg.qr(W[i][0])[0], np.linalg.qr(W[i][1])[0])
+                if wts[i] > 0:
+                    el[i] = float(np.real(m.local_energy(*ud(W[i]))))
+                    if abs(abs(el[i] - e_est) - cap) < 1e-6 * cap:
+                        near = True
+                    if abs(el[i] - e_est) > cap:
+                        el[i] = e_est
+            bw = float(np.sum(wts))
+            if bw <= 0:
+                ctx.count("sampler_runs_extinct")
+                return {"digest": None, "nontrivial": False}
+            be = float(np.sum(el * wts) / bw)
+            be_l.append(be)
+            bw_l.append(bw)
+            shift = 0.9 * shift + 0.1 * be
+        key, sub = jr.split(key)
+        zeta = float(jr.uniform(sub))
+        absw = [abs(float(x)) for x in wts]
+        if comb.distance_to_breakpoint(absw, zeta) < 1e-7:
+            near = True
+        idx = comb.comb_indices(absw, zeta)
+        if idx != list(range(nw)):
+            changed += 1
+        W = [W[j] for j in idx]
+        wts = np.ones(nw) * (float(np.sum(np.abs(wts))) / nw)
+    if near:
+        ctx.count("skipped_at_threshold")
+        ctx.probe("skipped_at_threshold", 1)
+        return {"digest": None, "nontrivial": False}
+    e_model = float(np.sum(np.array(be_l) * np.array(bw_l)) / np.sum(bw_l))
+    e_c = float(np.asarray(e_code))
+    if not abs(e_c - e_model) <= 1e-8 * max(1.0, abs(e_model)):
+        _bad(ctx, "phaseless.sampler_energy_differs_from_composed_model_steps", site, cfg, sampler=e_c, model=e_model, block_energies_model=be_l)
+    wc = np.asarray(pd_code["weights"])
+    if not np.allclose(wc, wts, rtol=1e-8, atol=1e-12):
+        _bad(ctx, "phaseless.sampler_weights_differ_from_composed_model_steps", site, cfg, sampler=wc.tolist(), model=wts.tolist())
+    ovm = np.array([abs(m.overlap(*ud(w))) for w in W])
+    ovc = np.abs(np.asarray(pd_code["overlaps"]))
+    if not np.allclose(ovc, ovm, rtol=1e-7, atol=1e-300):
+        _bad(ctx, "phaseless.sampler_walkers_differ_from_composed_model_steps", site, cfg, abs_overlaps_sampler=ovc.tolist(), abs_overlaps_model=ovm.tolist())
+    ctx.probe("sampler_runs", 1)
+    ctx.probe("sampler_sr_changed_population", changed)
+    nsteps = cfg["n_prop_steps"] * cfg["n_ene_blocks"] * cfg["n_sr_blocks"]
+    ctx.count("steps", nsteps)
+    return {"digest": arr_hash(np.array([e_c]), wc), "nontrivial": changed > 0,
+            "state_keys": [f"sampler-{cfg['wt']}-{cfg['trial']}-{cfg['nelec']}-{cfg['n_prop_steps']}{cfg['n_ene_blocks']}{cfg['n_sr_blocks']}-sr{int(changed > 0)}"],
+            "sim_steps": nsteps * nw, "sim_time": nsteps * dt,
+            "sample": {"cfg": cfg, "energy_sampler": e_c, "energy_model": e_model, "block_energies_model": be_l, "reconfigurations_that_changed_population": changed}}
 
 
 def _exec_history(cfg, ctx):
